@@ -51,12 +51,22 @@ func WithDebug(f func(format string, arg ...any)) Option {
 func NewConn(ctx context.Context, conn net.Conn, options ...Option) (outConn *Conn, err error) {
 	defer func() { convertErrorsToAlerts(conn, err) }()
 	done := make(chan struct{})
-	defer close(done)
+	exited := make(chan bool)
 	go func() {
 		select {
 		case <-done:
+			exited <- false
 		case <-ctx.Done():
 			conn.SetDeadline(time.Now())
+			exited <- true
+		}
+	}()
+	defer func() {
+		// Wait for the watcher: ctx must have no effect on the connection
+		// once NewConn has returned.
+		close(done)
+		if fired := <-exited; fired && err == nil {
+			conn.SetDeadline(time.Time{})
 		}
 	}()
 	record, err := readRecord(conn)
